@@ -440,9 +440,10 @@ theorem crypto_agrees (P : Params σ) :
   fun s p l off len data => handle_crypto_frame_eq_model P s p l off len data
 
 /-- `handle_packet` before its loop: the version latch, the Initial decryptor when there is none yet, the direction
-    (`packet` is read by `packet_isserver` only: "does it come from the client's address") -/
+    (`packet` is read by `packet_isserver` only: "does it come from the client's address"; the model's
+    `setInitialDecryptor` is `set_initial_decryptor(dcid, False)`) -/
 theorem handle_packet_pre_eq_model (P : Params σ) (s : St σ) (fromClient : Bool) (dcid : Bytes) (v : Version) :
-    QS.handle_packet_pre (fun st d _ => .ok () (setInitialDecryptor P st d)) (fun st (fc : Bool) d => .ok (packetIsServer st fc d) st)
+    QS.handle_packet_pre (fun st d chacha => .ok () (if chacha then st else setInitialDecryptor P st d)) (fun st (fc : Bool) d => .ok (packetIsServer st fc d) st)
         fromClient dcid v s
       = .ok (packetIsServer (handlePacketPre P s dcid v) fromClient dcid) (handlePacketPre P s dcid v) := by
   unfold QS.handle_packet_pre handlePacketPre latchVersion
